@@ -66,15 +66,19 @@ def unique_upto(ctx, case, res):
     return k
 
 
-def orthogonal(rng, m):
+def orthogonal(rng, m, mix_col=None):
     """exactly-rational orthogonal m×m matrix: signed permutation, optionally times a Pythagorean rotation of two modes"""
     perm = list(range(m)); rng.shuffle(perm)
     Q = np.zeros((m, m))
     for i, j in enumerate(perm):
         Q[i, j] = rng.choice([1.0, -1.0])
     kind = "signed_perm"
-    if m >= 2 and rng.random() < 0.5:
+    if m >= 2 and (mix_col is not None or rng.random() < 0.5):
         a, b = rng.sample(range(m), 2)
+        if mix_col is not None:
+            # the rotation must mix the given (faint) mode with another one: find where the signed permutation sent it
+            a = int(np.nonzero(Q[mix_col])[0][0])
+            b = rng.choice([c for c in range(m) if c != a])
         c, s = rng.choice([(0.6, 0.8), (0.8, 0.6), (5 / 13, 12 / 13), (-0.6, 0.8)])
         R = np.eye(m)
         R[a, a], R[a, b], R[b, a], R[b, b] = c, -s, s, c
@@ -93,7 +97,7 @@ def transform_case(rng, case, tkind):
     B = case.B
     n, m = B.shape
     if tkind == "orth":
-        Q, k = orthogonal(rng, m)
+        Q, k = orthogonal(rng, m, mix_col=case.meta.get("faint_col"))
         c2 = OptCase(B @ Q, case.kind, costs=case.costs, gqr=dict(case.gqr), meta=carry(case))
         return c2, (lambda r: r), {"transform": k, "Q": Q.tolist()}
     if tkind == "scale":
@@ -126,6 +130,7 @@ def run(ctx: C.Ctx):
     plan += [("ccqr", "scale", None)] * ctx.scale(30, 300) + [("gqr", "scale", None)] * ctx.scale(20, 200)
     # nearly low-rank geometry: after the dominant directions the residual norms drop by many orders of magnitude – the choices
     # there are still unique, and still a matter of geometry only
+    plan += [("ccqr", "orth", "faint")] * ctx.scale(20, 200) + [("gqr", "orth", "faint")] * ctx.scale(20, 200)
     plan += [("gqr", "orth", "graded")] * ctx.scale(25, 250) + [("gqr", "scale", "graded")] * ctx.scale(15, 150) \
         + [("ccqr", "orth", "graded")] * ctx.scale(10, 100)
     for idx, (fk, ft, fo) in enumerate(plan):
@@ -137,8 +142,18 @@ def run(ctx: C.Ctx):
             B = gen.gen_generic_matrix(rng, n, r_, -4, 4) @ gen.gen_generic_matrix(rng, r_, m, -4, 4) \
                 + gen.gen_generic_matrix(rng, n, m) * 2.0 ** -rng.choice([24, 30, 36])
             fo = None
+        faint_col = None
+        if fo == "faint":
+            # one faint mode (2^-28 … 2^-34 of the others): it decides the last leading pick; a rotation spreads it over two columns
+            m = max(m, 3); n = max(n, m + 1)
+            B = gen.gen_generic_matrix(rng, n, m)
+            faint_col = rng.randrange(m)
+            B[:, faint_col] = np.array([rng.randint(-5, 5) for _ in range(n)]) * 2.0 ** -rng.choice([28, 30, 34])
+            fo = None
         kind = fk or rng.choice(["qr", "ccqr", "gqr", "gqr"])
         case = make_case(rng, B, kind, fo)
+        if faint_col is not None:
+            case.meta["faint_col"] = faint_col
         tkind = ft or rng.choice(["orth", "scale", "relabel"])
         if case.kind in ("ccqr", "gqr") and tkind in ("scale", "relabel") and rng.random() < 0.3 \
                 and np.array_equal(B.astype(np.float32).astype(float), B):
